@@ -83,6 +83,11 @@ def run(chk):
             chk.ob('R4.2', "get_index_left_of(qx,qy) == (lookup of qx in x, lookup of qy in y)", ok, b['span'], 'get_index_left_of2d')
         except Exception as ex:
             chk.ob('R4.2', "Interp2D::get_index_left_of: %s" % ex, False, getattr(ex, 'where', ''), 'get_index_left_of2d')
+    # 'any query': what reaches the kernel is the (x, y) pair of one query element, on every entry point
+    chk.rule('R4.3', "every Interp2D entry point (interp_scalar / interp / interp_into / interp_array / interp_array_into, fast and general path) hands Bilinear the "
+                     "unmodified x and y of the same query element and stores the result under that element's index")
+    from . import c09
+    chk.floor('R4.3', '2-D entry point runs that reach the strategy', c09.query_delivery(chk, lib, 'R4.3', 2), 7)
     # 'the four grid values surrounding the query': the comparison skeleton of the bracket lookup (shared with C11)
     from . import c11
     c11.analyse(chk, lib, set_text=False)
